@@ -5,33 +5,39 @@
 (* through parent links or references) checked by TLC as an invariant of   *)
 (* Fqn.tla over every case of a bounded universe built here:               *)
 (*   trees   six slots p, q, p.p, p.q, q.p, q.q, each absent / a package / *)
-(*           a class (a slot below a package only); sibling names unique;  *)
+(*           a class / (slots in GrpSlots only) an anonymous group; a slot *)
+(*           below a package or group only; sibling names unique;          *)
+(*           a package is falsy in Python unless it directly contains a    *)
+(*           class (the user-class variant of the carrier);                *)
 (*   refs    optionally one cross reference -- `ext` of a class or `uses`  *)
 (*           of a package, any name of <= MaxCross parts -- textually      *)
-(*           before one probing `use` placed last in the root or in any    *)
-(*           package, with any name of <= 3 parts over {p, q}.             *)
-(* With Dev = {FqnWalksParent} or {FqnWalksRefs} the invariant fails.      *)
+(*           before one probing `use`/`open` (target class in TClasses)    *)
+(*           placed last in the root or in any package or group, with any  *)
+(*           name of <= 3 parts over {p, q}.                               *)
+(* With Dev = {FqnWalksParent}, {FqnWalksRefs} or {FqnFalsyTargetSkipped}  *)
+(* the invariant fails.                                                    *)
 (***************************************************************************)
 EXTENDS Fqn
 
-CONSTANTS Dev, MaxCross
+CONSTANTS Dev, MaxCross, GrpSlots, TClasses
 
 Slots  == << <<"p">>, <<"q">>, <<"p", "p">>, <<"p", "q">>, <<"q", "p">>, <<"q", "q">> >>
 Up(s)  == IF s <= 2 THEN 0 ELSE IF s <= 4 THEN 1 ELSE 2          \* parent slot, 0 = root
 NamesUpTo(n) == UNION {[1..m -> {"p", "q"}] : m \in 1..n}
 
-VARIABLES ph, kind, at, probe, xo, xn
-vars == <<ph, kind, at, probe, xo, xn>>
+VARIABLES ph, kind, at, probe, tc, xo, xn
+vars == <<ph, kind, at, probe, tc, xo, xn>>
 
-WellFormed(k) == \A s \in 3..6 : k[s] # "none" => k[Up(s)] = "pkg"
+WellFormed(k) == /\ \A s \in 3..6 : k[s] # "none" => k[Up(s)] \in {"pkg", "grp"}
+                 /\ \A s \in 1..6 : k[s] = "grp" => s \in GrpSlots
 
 Init == /\ ph = 0
-        /\ kind \in {k \in [1..6 -> {"none", "pkg", "cls"}] : WellFormed(k)}
-        /\ at = 0 /\ probe = <<"p">> /\ xo = 0 /\ xn = <<"p">>
+        /\ kind \in {k \in [1..6 -> {"none", "pkg", "cls", "grp"}] : WellFormed(k)}
+        /\ at = 0 /\ probe = <<"p">> /\ tc = "Cls" /\ xo = 0 /\ xn = <<"p">>
 Next == /\ ph = 0 /\ ph' = 1 /\ UNCHANGED kind
-        /\ at' \in {0} \cup {s \in 1..6 : kind[s] = "pkg"}            \* where the `use` stands
-        /\ probe' \in NamesUpTo(3)
-        /\ xo' \in {0} \cup (IF MaxCross = 0 THEN {} ELSE {s \in 1..6 : kind[s] # "none"})
+        /\ at' \in {0} \cup {s \in 1..6 : kind[s] \in {"pkg", "grp"}}   \* where the probe stands
+        /\ probe' \in NamesUpTo(3) /\ tc' \in TClasses
+        /\ xo' \in {0} \cup (IF MaxCross = 0 THEN {} ELSE {s \in 1..6 : kind[s] \in {"pkg", "cls"}})
         /\ xn' \in (IF xo' = 0 THEN {<<"p">>} ELSE NamesUpTo(MaxCross))
 Spec == Init /\ [][Next]_vars
 
@@ -41,19 +47,26 @@ Ids(ss) == [j \in 1..Len(ss) |-> ss[j] + 1]
 Elems(sl) == Ids(KidsOf(sl)) \o (IF at = sl THEN <<8>> ELSE <<>>)
 Cont(es) == [k |-> "cont", attr |-> "elems", els |-> es]
 Ref(a)   == [k |-> "ref", attr |-> a, els |-> <<>>]
+HasCls(sl) == \E s \in 1..6 : kind[s] = "cls" /\ Up(s) = sl
 Objs ==
-  << [cls |-> "Model", name |-> "-", named |-> FALSE, parent |-> 0, attrs |-> <<Cont(Elems(0))>>] >>
+  << [cls |-> "Model", name |-> "-", named |-> FALSE, truthy |-> TRUE, parent |-> 0,
+      attrs |-> <<Cont(Elems(0))>>] >>
   \o [s \in 1..6 |->
-        IF kind[s] = "pkg"
-        THEN [cls |-> "Pkg", name |-> Last(Slots[s]), named |-> TRUE, parent |-> Up(s) + 1,
-              attrs |-> <<Ref("uses"), Cont(Elems(s))>>]
-        ELSE [cls |-> IF kind[s] = "cls" THEN "Cls" ELSE "None", name |-> Last(Slots[s]),
-              named |-> kind[s] = "cls", parent |-> Up(s) + 1, attrs |-> <<Ref("ext")>>]]
-  \o << [cls |-> "Use", name |-> "-", named |-> FALSE, parent |-> at + 1, attrs |-> <<Ref("ref")>>] >>
+        CASE kind[s] = "pkg" ->
+               [cls |-> "Pkg", name |-> Last(Slots[s]), named |-> TRUE, truthy |-> HasCls(s),
+                parent |-> Up(s) + 1, attrs |-> <<Ref("uses"), Cont(Elems(s))>>]
+          [] kind[s] = "grp" ->
+               [cls |-> "Grp", name |-> "-", named |-> FALSE, truthy |-> TRUE,
+                parent |-> Up(s) + 1, attrs |-> <<Cont(Elems(s))>>]
+          [] OTHER ->
+               [cls |-> IF kind[s] = "cls" THEN "Cls" ELSE "None", name |-> Last(Slots[s]),
+                named |-> kind[s] = "cls", truthy |-> TRUE, parent |-> Up(s) + 1, attrs |-> <<Ref("ext")>>]]
+  \o << [cls |-> "Use", name |-> "-", named |-> FALSE, truthy |-> TRUE, parent |-> at + 1,
+         attrs |-> <<Ref("ref")>>] >>
 Refs == (IF xo = 0 THEN <<>>
          ELSE << [owner |-> xo + 1, attr |-> IF kind[xo] = "pkg" THEN "uses" ELSE "ext",
                   parts |-> xn, cls |-> "Cls"] >>)
-        \o << [owner |-> 8, attr |-> "ref", parts |-> probe, cls |-> "Cls"] >>
+        \o << [owner |-> 8, attr |-> "ref", parts |-> probe, cls |-> tc] >>
 C == [objs |-> Objs, refs |-> Refs]
 
 C10 == ph = 1 => C10Holds(C, Dev)
